@@ -149,6 +149,8 @@ def replay(path):
 
     rec = json.load(open(path))
     inp = rec.get("input") or {}
+    if "same-cube-after" in (rec.get("obligation") or ""):
+        return core.generic_replay(PROP, path, run, LEVEL)
     if "dims" not in inp or "call" not in inp:
         print("this replay file has no recorded case; re-run the check itself: ./check %s" % rec.get("property", PROP))
         return core.EXIT_UNDECIDED
